@@ -362,3 +362,84 @@ fn upper_ascii_agree() {
     assert!(it.next() == Some(ascii_upper(b) as char));
     assert!(it.next().is_none());
 }
+
+/// C15/C19: lookups with CONCRETE names that differ only by case, including Unicode case mappings that change the
+/// number of UTF-16 units (ß -> SS, U+FB01 -> FI) and title/upper pairs (U+01C6 / U+01C4). With the unicode feature
+/// these match; without it only ASCII letters fold. A name never matches a proper prefix or extension of itself.
+#[cfg(all(feature = "alloc", feature = "lfn"))]
+fn eq_case(l: &[u16], q: &str, expect_unicode: bool, expect_ascii_only: bool) {
+    let g = Geo::small(FatType::Fat16, 6);
+    let fs = core::mem::ManuallyDrop::new(mk_fs_plain(LogDev::new(u64::MAX), &g, NullTimeProvider::new(), false));
+    let mut sfn = [b' '; 11];
+    sfn[0] = b'X'; sfn[1] = b'~'; sfn[2] = b'1';
+    let e = core::mem::ManuallyDrop::new(mk_entry(&*fs, sfn, l));
+    let got = e.eq_name(q);
+    let expect = if cfg!(feature = "unicode") { expect_unicode } else { expect_ascii_only };
+    assert!(got == expect);
+    // symmetric use: the alias itself always matches, in any case
+    assert!(e.eq_name("x~1") && e.eq_name("X~1"));
+}
+macro_rules! eq_case {
+    ($name:ident, $l:expr, $q:expr, $u:expr, $a:expr) => {
+        #[cfg(all(feature = "alloc", feature = "lfn"))]
+        #[kani::proof]
+        #[kani::unwind(16)]
+        fn $name() { eq_case(&$l, $q, $u, $a); }
+    };
+}
+eq_case!(eq_case_sharp_s_upper, [0x00DFu16], "SS", true, false);
+eq_case!(eq_case_sharp_s_lower, [0x00DFu16], "ss", true, false);
+eq_case!(eq_case_sharp_s_self, [0x00DFu16], "\u{DF}", true, true);
+eq_case!(eq_case_sharp_s_prefix, [0x00DFu16], "S", false, false);
+eq_case!(eq_case_mixed_expand, [0x61u16, 0x00DF], "ASS", true, false);
+eq_case!(eq_case_ligature_fi, [0xFB01u16], "fi", true, false);
+eq_case!(eq_case_dz_title, [0x01C6u16], "\u{1C4}", true, false);
+eq_case!(eq_case_dotted_i, [0x0130u16], "i", false, false);
+eq_case!(eq_case_ascii, [0x61u16, 0x62], "AB", true, true);
+eq_case!(eq_case_longer_query, [0x61u16, 0x62], "abc", false, false);
+eq_case!(eq_case_shorter_query, [0x61u16, 0x62, 0x63], "ab", false, false);
+eq_case!(eq_case_e_acute, [0x00E9u16], "\u{C9}", true, false);
+
+#[kani::proof]
+#[kani::unwind(16)]
+fn probe_upper_literal() {
+    let c = '\u{DF}';
+    let mut it = c.to_uppercase();
+    assert!(it.next() == Some('S'));
+    assert!(it.next() == Some('S'));
+    assert!(it.next().is_none());
+}
+#[kani::proof]
+#[kani::unwind(16)]
+fn probe_upper_from_str() {
+    let c = "\u{DF}".chars().next().unwrap();
+    let mut it = c.to_uppercase();
+    assert!(it.next() == Some('S'));
+    assert!(it.next() == Some('S'));
+    assert!(it.next().is_none());
+}
+#[kani::proof]
+#[kani::unwind(16)]
+fn probe_upper_flat_map() {
+    let mut it = "\u{DF}".chars().flat_map(char::to_uppercase);
+    assert!(it.next() == Some('S'));
+    assert!(it.next() == Some('S'));
+    assert!(it.next().is_none());
+}
+
+/// Reference comparison used as a STUB for `ShortName::eq_ignore_case` in the directory-level namespace steps (8.3
+/// build, ASCII names only): equal length and equal bytes after ASCII upper-casing. The real function is decided on its
+/// own (`eq_name_ascii`, `eq_case_*`); its `flat_map(char_to_uppercase)` iterator chain costs minutes per comparison
+/// inside a larger harness.
+#[allow(dead_code)]
+pub(crate) fn stub_eq_ignore_case<OCC: OemCpConverter>(this: &ShortName, name: &str, _occ: &OCC) -> bool {
+    let n = usize::from(this.len);
+    let b = name.as_bytes();
+    if b.len() != n { return false; }
+    let mut i = 0;
+    while i < n {
+        if ascii_upper(this.name[i]) != ascii_upper(b[i]) { return false; }
+        i += 1;
+    }
+    true
+}
